@@ -621,9 +621,38 @@ def symbolic_paths(fn: ast.AST, max_paths: int = 512,
     import copy
     opaque = set(opaque)
     cfg = CFG(fn)
+    # A loop is summarised, not unrolled: everything it assigns becomes an opaque value
+    # `__loop__(<line>, '<name>')` and the walk continues at the loop's exits. A loop that
+    # contains a `return` cannot be summarised this way.
+    loop_exits: Dict[int, Tuple[List[int], List[str]]] = {}
     for n in cfg.nodes:
         if n.kind in ("while", "for"):
-            raise AnalysisError("symbolic_paths: function has a loop")
+            st = n.stmt
+            inner = {id(x) for x in ast.walk(st)}
+            if any(isinstance(x, (ast.Return, ast.Yield, ast.YieldFrom)) for x in ast.walk(st)):
+                raise AnalysisError("symbolic_paths: a loop returns / yields")
+            members = {m.id for m in cfg.nodes if m.stmt is not None and id(m.stmt) in inner}
+            members.add(n.id)
+            exits = sorted({s_ for m in members for s_ in cfg.succ[m]
+                            if s_ not in members and s_ != RAISE})
+            assigned: List[str] = []
+            for x in ast.walk(st):
+                tg = None
+                if isinstance(x, (ast.Assign,)):
+                    for t_ in x.targets:
+                        for y in ast.walk(t_):
+                            if isinstance(y, (ast.Name, ast.Attribute)) and isinstance(
+                                    y.ctx, ast.Store):
+                                assigned.append(ast.unparse(y))
+                elif isinstance(x, (ast.AugAssign, ast.AnnAssign, ast.NamedExpr)):
+                    tg = x.target
+                elif isinstance(x, ast.For):
+                    tg = x.target
+                if tg is not None:
+                    for y in ast.walk(tg):
+                        if isinstance(y, (ast.Name, ast.Attribute)):
+                            assigned.append(ast.unparse(y))
+            loop_exits[n.id] = (exits, sorted(set(assigned)))
     out: List[SymPath] = []
 
     class _S(ast.NodeTransformer):
@@ -656,6 +685,18 @@ def symbolic_paths(fn: ast.AST, max_paths: int = 512,
         node = cfg.nodes[nid]
         seen = seen + (nid,)
         st = node.stmt
+        if nid in loop_exits:
+            exits, assigned = loop_exits[nid]
+            env = dict(env)
+            for k in assigned:
+                if k not in opaque:
+                    env[k] = ast.Call(func=ast.Name(id="__loop__", ctx=ast.Load()),
+                                      args=[ast.Constant(value=getattr(st, "lineno", 0)),
+                                            ast.Constant(value=k)], keywords=[])
+            trace = trace + [st]
+            for s_ in exits:
+                go(s_, env, conds, seen, trace, ret, retval, stores)
+            return
         if node.kind == "stmt" and st is not None:
             trace = trace + [st]
             if isinstance(st, ast.Return):
